@@ -311,7 +311,7 @@ def run_kani(scratch, harnesses, features=None, jobs=None, harness_timeout=600,
         cmd += ["--features", ",".join(features)]
     if playback:
         cmd += ["-Z", "concrete-playback", "--concrete-playback=print"]
-    if jobs > 1 and not playback:
+    if jobs > 1 and not playback:  # Kani: --concrete-playback is incompatible with --jobs
         cmd += ["-j", str(jobs), "--output-format", "terse"]
     for h in harnesses:
         cmd += ["--harness", h]
